@@ -336,7 +336,13 @@ class C01(MotionMonitor):
                (2, "region-additions", mk(addregion=True, arcs=True, at=True)),
                (2, "everything", mk(rel=True, inch=True, arcs=True, at=True, addregion=True, g28mid=True, retmove=True,
                                     spell=True, g92e_retracted=True)),
-               (1.5, "exact-border", {}), (1.5, "arcs-under-g91", mk(rel=True, arcs=True, arcs_rel=True))]
+               (1.5, "exact-border", {}), (1.5, "arcs-under-g91", mk(rel=True, arcs=True, arcs_rel=True)),
+               (1.5, "g90-influences-extruder", mk(rel=True, arcs=True, at=True, g90e=True))]
+
+    def settings_for(self, rnd, feats):
+        s = MotionMonitor.settings_for(self, rnd, feats)
+        s["g90e"] = bool(feats.get("g90e"))
+        return s
 
     def oracle(self, tr, stats, case):
         return oracle_c01(tr, stats)
